@@ -17,6 +17,16 @@ COMMON_NOTE = ("Trusted: Coq 8.16.1 kernel (full .vo build, vm_compute, no nativ
 
 # id -> (technique, level text, extra note, design ref)   -- only properties whose check is built and passes
 CLAIMED = {
+    "C09": ("Rocq proof about the writer's union branch search as a function: chosen branch conforms, tuple and '-type' hints select exactly the named branch (error when none), first conforming non-record branch, float defers to double, most shared fields first on ties; union indices and named-type reporting vs the model + the statement evaluated on the written index",
+            "Theorems (coq/props/C09.v, 13): C09_conforming, C09_function, C09_tuple_hint, C09_type_hint (+_validate), C09_first_nonrecord, C09_float_defers_to_double, C09_double_chosen, "
+            "C09_most_fields_first_on_tie, C09_search_spec, C09_no_branch, C09_closure_partial. Tie: union index written by fastavro vs the model's elab on unions of primitive mixes, several "
+            "records, enums/fixed, references, arrays/maps, nested hints x {no hint, tuple, -type} x disable_tuple_notation; the four reader options; closure (read with names, write back: same bytes).",
+            "C09_closure is proved at the union node only (_partial); beyond it the closure clause is decided by the correspondence. F13 ([Rec, map] with a dict fitting both goes to the map branch) is left open by the statement: observation only.", "§3 C09"),
+    "C10": ("Rocq proof: validate returns True exactly on the declarative conformance relation (clause by clause from the documented mapping), raises exactly where it would answer False, strict rule, accepted => elaborated => round trip under an explicit writer-domain condition; validate / validate_many / validating writers vs the model on conforming and singly-mutated data",
+            "Theorems (coq/props/C10.v, 13): C10_iff, C10_sound, C10_complete, C10_raise_agrees, C10_raise_iff, C10_strict, C10_fuel_monotone, C10_gate, C10_accepted_typed, C10_absent_field_agrees, "
+            "C10_writer_accepts_partial, C10_accepted_roundtrip, C10_writer_accepts_refuted (what remains false without the side condition: foreign exception in a later branch, strict writer, float overflow). "
+            "Tie: 12 mutation kinds x raise_errors x strict x disable_tuple_notation, validate_many, accepted => written and read back, rejected => validating writer raises with the stream unchanged, strict writers.",
+            "C10_gate is model-level; that no byte reaches the stream is decided by the correspondence. floats_ok (range of SpecFloat.binary_round outputs) is an evaluated hypothesis.", "§3 C10"),
     "C11": ("Rocq proof about a faithful model of parse_schema: full names per the spec's namespace rules, references denote table entries with that name, every rejection kind of the statement (exact error at the node and 'never accepted at any depth'), acceptance of every valid_raw schema; model vs fastavro.parse_schema on generated valid and singly-mutated schemas",
             "Theorems (coq/props/C11.v, ~39): C11_fullnames, C11_refs/C11_refs_denote, C11_rejects_* (undefined reference, duplicate name incl. top-level unions, missing name, malformed/duplicate symbol, "
             "enum default, default of wrong JSON type for primitives / dict forms / unions / references, decimal precision/scale), C11_accepts (valid_raw => accepted, no size bound). "
